@@ -554,7 +554,9 @@ class HostileCtx(object):
             if late and self.late_close_end(w, cfg, state, kinds, escapes):
                 return
             while any(c.closing() for c in w.live_conns()):
+                pos = len(w.log)
                 w.apply(["cdone", 0])
+                escapes(pos, "close-completion")
             t0 = w.now()
             n0 = len(w.conns)
             limit = t0 + cfg["idle_hold_time"] + 1e-6
@@ -778,7 +780,8 @@ class HostileProfile(BaseProfile):
         cfg["call_later"] = 0
         cfg["peer_open"] = base.gen_open(rng, cfg, "valid", hold=rng.pick([0, 30, 90, 180])).hex()
         if rng.chance(0.3):
-            cfg["afi_safi"] = rng.pick([["ipv4"], ["ipv4", "ipv6"], ["ipv4", "flowspec", "ipv4_lu"], ["ipv4", "bgpls", "evpn"]])
+            cfg["afi_safi"] = rng.pick([["ipv4"], ["ipv4", "ipv6"], ["ipv4", "flowspec", "ipv4_lu"], ["ipv4", "bgpls", "evpn"],
+                                        ["flowspec"], ["ipv6", "flowspec"]])      # (also: family lists without ipv4)
         cfg["rib"] = rng.chance(0.3)
         cfg["late_close"] = rng.chance(0.3)
         cfg["refuse_first_reconnect"] = rng.chance(0.4)
